@@ -1,15 +1,21 @@
 package host
 
 import (
+	"bufio"
 	"context"
 	"crypto/tls"
+	"crypto/x509"
+	"encoding/base64"
 	"fmt"
+	"io"
 	"net"
 	"net/rpc"
 	"os"
+	"os/exec"
 	"path/filepath"
 	"sort"
 	"strings"
+	"syscall"
 	"testing"
 	"time"
 
@@ -85,6 +91,15 @@ func intrudeNetRPC(path string, cr cred) (bool, error) {
 		return false, err
 	}
 	st.SetDeadline(time.Now().Add(intrudeTimeout))
+	// the server serves the control stream only once the two stdio streams have been opened as well
+	for i := 0; i < 2; i++ {
+		ss, err := sess.Open()
+		if err != nil {
+			return false, err
+		}
+		defer ss.Close()
+		go io.Copy(io.Discard, ss)
+	}
 	cl := rpc.NewClient(st)
 	defer cl.Close()
 	var empty struct{}
@@ -154,6 +169,100 @@ func intrudeGRPC(path string, cr cred, viaYamux bool, pingpong bool) (bool, erro
 	return true, nil
 }
 
+// c12DirectEnv starts the plugin the way a host does (cookie, version list, PLUGIN_CLIENT_CERT) but with a
+// PLUGIN_CLIENT_CERT of an unusual shape, and then knocks on its main listener as the legitimate host
+// (holding the key of the certificate in the variable) and as every intruder class.
+func c12DirectEnv(c spec.Case, p spec.C12Case, wire string, o *spec.C12Obs) {
+	d := caseDir(c.ID, "")
+	hostCert, hostKey, _ := vp.GenCert()
+	otherCert, _, _ := vp.GenCert()
+	_, someKey, _ := vp.GenCert()
+	junkBlock := "-----BEGIN CERTIFICATE-----\n" + base64.StdEncoding.EncodeToString([]byte("this is not a DER certificate, just some bytes of padding....")) + "\n-----END CERTIFICATE-----\n"
+	var env string
+	hasHost := true
+	switch p.CertEnv {
+	case "plain":
+		env = string(hostCert)
+	case "cert+junkblock":
+		env = string(hostCert) + junkBlock
+	case "junkblock+cert":
+		env = junkBlock + string(hostCert)
+	case "cert+keyblock":
+		env = string(hostCert) + string(someKey)
+	case "cert+text":
+		env = string(hostCert) + "trailing text that is not PEM\n"
+	case "two-certs":
+		env = string(hostCert) + string(otherCert)
+	case "junkblock-only":
+		env, hasHost = junkBlock, false
+	case "text-only":
+		env, hasHost = "not a certificate at all", false
+	}
+	pcfg := pluginCfgFor(wire)
+	pcfg["tmpDir"] = d
+	pcfg["ctl"] = ""
+	cf := writeCfg(d, pcfg)
+	cmd := exec.Command(pluginBin, cf)
+	cmd.Env = []string{"TMPDIR=" + d, spec.CookieKey + "=" + spec.CookieValue, "PLUGIN_PROTOCOL_VERSIONS=1", "PLUGIN_CLIENT_CERT=" + env}
+	cmd.SysProcAttr = &syscall.SysProcAttr{Setpgid: true}
+	stdout, _ := cmd.StdoutPipe()
+	if err := cmd.Start(); err != nil {
+		o.SetupErr = err.Error()
+		return
+	}
+	defer func() {
+		syscall.Kill(-cmd.Process.Pid, syscall.SIGKILL)
+		cmd.Wait()
+	}()
+	lineCh := make(chan string, 1)
+	go func() {
+		br := bufio.NewReader(stdout)
+		line, _ := br.ReadString('\n')
+		lineCh <- line
+		io.Copy(io.Discard, br)
+	}()
+	var line string
+	select {
+	case line = <-lineCh:
+	case <-time.After(15 * time.Second):
+		o.SetupErr = "no handshake line within 15 s"
+		return
+	}
+	o.Line = strings.TrimSpace(line)
+	parts := strings.Split(o.Line, "|")
+	if len(parts) < 5 || parts[2] != "unix" {
+		// the plugin refused to serve with this variable: nothing is exposed
+		o.Positive = "plugin did not announce a listener: " + trunc(o.Line, 80)
+		return
+	}
+	sock := parts[3]
+	probe := func(cr cred) (bool, error) {
+		if wire == "netrpc" {
+			return intrudeNetRPC(sock, cr)
+		}
+		return intrudeGRPC(sock, cr, false, false)
+	}
+	// the legitimate host: presents the certificate from the variable, trusts the announced one
+	if hasHost && len(parts) >= 6 && parts[5] != "" {
+		if der, err := base64.RawStdEncoding.DecodeString(parts[5]); err == nil {
+			if pc, err := x509.ParseCertificate(der); err == nil {
+				pool := x509.NewCertPool()
+				pool.AddCert(pc)
+				ok, err := probe(cred{"legit", &tls.Config{RootCAs: pool, Certificates: []tls.Certificate{vp.KeyPair(hostCert, hostKey)}, ServerName: "localhost", MinVersion: tls.VersionTLS12}})
+				o.PositiveOK, o.Positive = ok, "legitimate host: "+errStr(err)
+			}
+		}
+	} else if len(parts) < 6 || parts[5] == "" {
+		o.Positive = "no certificate announced"
+	}
+	o.Target = sock
+	for _, cr := range intruderCreds() {
+		t0 := time.Now()
+		ans, err := probe(cr)
+		o.Attempts = append(o.Attempts, spec.C12Attempt{Cred: cr.name, Answered: ans, Err: trunc(errStr(err), 160), Ms: time.Since(t0).Milliseconds()})
+	}
+}
+
 func sockets(dir string) []string {
 	var out []string
 	filepath.Walk(dir, func(p string, info os.FileInfo, err error) error {
@@ -194,6 +303,11 @@ func TestC12(t *testing.T) {
 		cfg.StartTimeout = 10 * time.Second
 		hostSetFor(cfg, wire)
 		done := func() { e.Ret("h", "mtls", o) }
+		if p.Path == "direct-env" {
+			c12DirectEnv(c, p, wire, &o)
+			done()
+			return
+		}
 		if p.Path == "relaunch-impostor" {
 			// One ClientConfig object used for two launches (a supervisor restarting
 			// its plugin): launch 1 is well-behaved (announces and serves certificate
